@@ -528,3 +528,96 @@ def tail_rule(chk, rule, mods, name_re, block_re, block_size=1024, lf=8):
                 r, (I, msg) = bad
                 chk.finding(Finding(rule, src, F.name, "padding:residue=%d" % r, "with a residue of %d byte(s): %s" % (r, msg), loc=I.loc() if hasattr(I, "loc") else src))
     return n, ncases
+
+
+def shuffle_mask_rule(chk, rule, lib, name_re):
+    """Byte-order masks are constants: in the hash kernels / block functions every register that serves as the
+    control operand of a (v)pshufb has, on every path, been loaded from constant data (directly, by broadcast, or
+    through register copies).  A mask register that the loop body also uses as scratch - the typical result of
+    hoisting the mask load out of the block loop - shuffles every block but the first with garbage.
+    Forward reaching-class dataflow over the lifted object code; join = union of classes."""
+    import absint
+    import c19
+    from report import Finding
+    from x86 import PARENT
+    VEC = re.compile(r"^[XYZ]MM(\d+)$")
+    n = nshuf = 0
+    for key, name in lib.entry_list:
+        if not re.match(name_re, name):
+            continue
+        f = lib.func(key)
+        p1 = absint.Interp(lib, lambda t, c=None: c19.summary_of(lib, t, c)).run(f)
+        n += 1
+
+        def const_mem(i):
+            m = p1.maddr.get(i.addr)
+            if not m:
+                return False
+            v = m[0]
+            if v[0] == "addr":
+                return True
+            rs = absint.roots(v)
+            return bool(rs) and all(isinstance(t, tuple) and t[0] == "sym" for t in rs)
+        state_in = {f.entry: {}}
+        work = [f.entry]
+        bad = {}
+        it = 0
+        while work:
+            b = work.pop()
+            it += 1
+            if it > 100000:
+                chk.broke("%s: shuffle-mask dataflow did not converge" % name)
+                break
+            st = {k: set(v) for k, v in state_in[b].items()}
+            for i in f.blocks[b]:
+                vregs = [(k, o[1]) for k, o in enumerate(i.ops) if o[0] == "r" and o[1] and VEC.match(o[1])]
+                if "PSHUFB" in i.op and i.mem < 0 and len(vregs) >= 2:
+                    mk = int(VEC.match(vregs[-1][1]).group(1))
+                    cls = st.get(mk, {("other", None)})
+                    nshuf += 1
+                    others = [c for c in cls if c[0] != "const"]
+                    if others and i.addr not in bad:
+                        bad[i.addr] = (i, others[0][1])
+                defs = [d for d in i.explicit_defs() if VEC.match(d)]
+                if not defs:
+                    continue
+                d = int(VEC.match(defs[0]).group(1))
+                op = i.op
+                srcs = [int(VEC.match(u).group(1)) for u in i.reg_uses_nomem() if VEC.match(u)]
+                if i.mem >= 0 and i.reads_mem_operand() and re.match(r"^V?(MOVDQ[AU]|MOVAPS|MOVUPS|MOVDQA|MOVDQU|LDDQU|PBROADCAST|BROADCAST)", op) and not srcs:
+                    st[d] = {("const", i.addr)} if const_mem(i) else {("other", i.addr)}
+                elif i.mem < 0 and re.match(r"^V?(MOVDQ[AU]|MOVAPS|MOVUPS|MOVDQA|MOVDQU)", op) and len(srcs) == 1:
+                    st[d] = set(st.get(srcs[0], {("other", i.addr)}))
+                else:
+                    st[d] = {("other", i.addr)}
+            for s_ in f.succ.get(b, []):
+                old = state_in.get(s_)
+                if old is None:
+                    state_in[s_] = {k: set(v) for k, v in st.items()}
+                    work.append(s_)
+                else:
+                    ch = False
+                    for k, v in st.items():
+                        if k in old:
+                            if not v <= old[k]:
+                                old[k] |= v
+                                ch = True
+                        # a register defined on one path only stays absent (= unknown -> "other" when used)
+                    for k in list(old):
+                        if k not in st:
+                            if ("other", None) not in old[k]:
+                                old[k].add(("other", None))
+                                ch = True
+                    if ch and s_ not in work:
+                        work.append(s_)
+        chk.obligation(rule, not bad, key=(name, "shuffle-mask"), sample={"function": name, "pshufb_with_register_mask": nshuf})
+        for a in sorted(bad)[:2]:
+            i, da = bad[a]
+            dtext = ""
+            if da is not None:
+                for bl in f.blocks.values():
+                    for j in bl:
+                        if j.addr == da:
+                            dtext = " (e.g. `%s` at %s)" % (j.text.strip(), f.obj.line_of(f.sec, da))
+            chk.finding(Finding(rule, f.obj.name, name, "shuffle-mask", "`%s`: on some path the control operand of the byte shuffle was last written by something other than a load of constant data%s - a byte-order mask that is loaded once and then clobbered shuffles later blocks with garbage" % (i.text.strip(), dtext), loc=f.obj.line_of(f.sec, i.addr)))
+    return n, nshuf
